@@ -7,6 +7,7 @@ tmp=$(mktemp -d)
 cp spec/*.tla "$tmp"/
 ( cd "$tmp" && for f in *.tla; do
     case "$f" in Trace_*|Rec_*) continue;; esac   # these read a trace file at parse time
+    if grep -q 'EXTENDS.*TLAPS' "$f"; then continue; fi   # proof modules: parsed and checked by tlapm (its own library), not by SANY
     tla-sany "$f" >/dev/null 2>&1 || { echo "SANY failed on $f"; tla-sany "$f" | tail -20; exit 1; }
   done )
 rm -rf "$tmp"
